@@ -238,13 +238,16 @@ def write_chunk(outfile, name, data):
 def write_track(outfile, track):
     data = bytearray()
 
-    running_status_byte = None
-    for msg in fix_end_of_track(track):
+    # Check the times before fix_end_of_track() folds the time of an
+    # end_of_track message into the message that follows it.
+    for msg in track:
         if not isinstance(msg.time, Integral):
             raise ValueError('message time must be int in MIDI file')
         if msg.time < 0:
             raise ValueError('message time must be non-negative in MIDI file')
 
+    running_status_byte = None
+    for msg in fix_end_of_track(track):
         if msg.is_realtime:
             raise ValueError('realtime messages are not allowed in MIDI files')
 
